@@ -83,6 +83,11 @@ class UnionKid(Expr):
 class Tup(Expr):
     items: tuple[Expr, ...] = ()
 
+    def __iter__(self):
+        # a node class may be iterable (a block iterating over its statements): it is still ONE node wherever it is
+        # stored, never a sequence of children of its holder
+        return iter(self.items)
+
 
 @dataclass(frozen=True)
 class Fix2(Expr):
